@@ -19,6 +19,7 @@ class Prop:
     (two build profiles); the oracle mode of the harness evaluates the property on the real code."""
     id = "C00"
     use_oracle = True
+    profile_sensitive = False   # True: the model is also run under Cfg.checked for the relchk build
     per_op_timeout = 10.0
 
     def rule(self):
@@ -61,7 +62,11 @@ class Prop:
         impl = {}
         for prof, exe in (("release", ctx.exe_release), ("relchk", ctx.exe_relchk)):
             impl[prof] = ctx.run_all([exe], ops, self.per_op_timeout)
-        model = ctx.run_all([ctx.driver], ops, self.per_op_timeout) if ctx.driver else None
+        model = None
+        if ctx.driver:
+            model = {"release": ctx.run_all([ctx.driver], ops, self.per_op_timeout)}
+            model["relchk"] = (ctx.run_all([ctx.driver, "--checked"], ops, self.per_op_timeout)
+                               if self.profile_sensitive else model["release"])
         oracle = {}
         if self.use_oracle:
             for prof, exe in (("release", ctx.exe_release), ("relchk", ctx.exe_relchk)):
@@ -78,10 +83,11 @@ class Prop:
                 nontrivial.add(h)
             seen_ops.add(h)
             a_rel, a_chk = impl["release"][k], impl["relchk"][k]
-            if model is not None and (model[k] != a_rel or model[k] != a_chk):
+            if model is not None and (model["release"][k] != a_rel or model["relchk"][k] != a_chk):
                 dis += 1
                 if len(ctx.disagreements) < 20:
-                    ctx.disagreements.append({"stream": f"{self.id}:{cls}", "op": op[:2000], "model": model[k][:600],
+                    ctx.disagreements.append({"stream": f"{self.id}:{cls}", "op": op[:2000], "model": model["release"][k][:600],
+                                              "model_checked": model["relchk"][k][:600],
                                               "release": a_rel[:600], "relchk": a_chk[:600]})
             elif model is None and a_rel != a_chk:
                 dis += 1
@@ -95,7 +101,7 @@ class Prop:
                     if len(ctx.violations) < 200:
                         ctx.violations.append({"op": op[:4000], "class": cls, "profile": prof, "oracle": ans[:800],
                                                "implementation": impl[prof][k][:800],
-                                               "model": model[k][:800] if model else None})
+                                               "model": model[prof][k][:800] if model else None})
                     break
         ctx.cov["evaluations"] = len(ops)
         ctx.cov["distinct_nontrivial"] = len(nontrivial)
@@ -106,7 +112,7 @@ class Prop:
         for k, (op, cls, nt) in enumerate(items):
             if cls not in first and nt:
                 first[cls] = {"class": cls, "op": op[:300], "implementation": impl["release"][k][:200],
-                              "model": (model[k][:200] if model else None),
+                              "model": (model["release"][k][:200] if model else None),
                               "oracle": (oracle["release"][k][:80] if oracle else None)}
         ctx.cov["samples"] = list(first.values())
         ctx.cov["model_driver_used"] = model is not None
